@@ -39,6 +39,7 @@ package dct
 import (
 	"bufio"
 	"io"
+	"sync/atomic"
 
 	"seehuhn.de/go/membudget"
 	"seehuhn.de/go/pdf/internal/filter/dct/jpeg"
@@ -61,9 +62,12 @@ import (
 // pipe.
 func Decode(r io.Reader, colorTransform *int, budget *membudget.Budget) (io.ReadCloser, error) {
 	pr, pw := io.Pipe()
+	res := &reader{PipeReader: pr, done: make(chan struct{})}
+	src := &stoppableReader{r: r, stop: &res.stop}
 	go func() {
+		defer close(res.done)
 		bw := bufio.NewWriter(pw)
-		if err := jpeg.DecodeStream(r, colorTransform, bw, budget); err != nil {
+		if err := jpeg.DecodeStream(src, colorTransform, bw, budget); err != nil {
 			pw.CloseWithError(err)
 			return
 		}
@@ -73,5 +77,30 @@ func Decode(r io.Reader, colorTransform *int, budget *membudget.Budget) (io.Read
 		}
 		pw.Close()
 	}()
-	return pr, nil
+	return res, nil
+}
+
+type reader struct {
+	*io.PipeReader
+	stop atomic.Bool
+	done chan struct{}
+}
+
+func (r *reader) Close() error {
+	r.stop.Store(true)
+	err := r.PipeReader.Close()
+	<-r.done
+	return err
+}
+
+type stoppableReader struct {
+	r    io.Reader
+	stop *atomic.Bool
+}
+
+func (s *stoppableReader) Read(p []byte) (int, error) {
+	if s.stop.Load() {
+		return 0, io.ErrClosedPipe
+	}
+	return s.r.Read(p)
 }
